@@ -50,6 +50,9 @@ pub struct GenCfg {
     pub big_payloads: bool,
     pub preset_ids: Option<(u16, u32)>,
     pub ack_eagerness: u32,
+    /// Run to quiescence after every step (no partial scheduling): makes the outcome a function
+    /// of the event order only, as the differential framing oracle needs.
+    pub always_settle: bool,
 }
 
 impl GenCfg {
@@ -98,6 +101,7 @@ impl GenCfg {
             big_payloads: rng.chance(1, 6),
             preset_ids: None,
             ack_eagerness: rng.range(1, 6) as u32,
+            always_settle: false,
         }
     }
 
@@ -470,7 +474,7 @@ impl<'a> Gen<'a> {
         let wblocked = self.world.pipe().map(|p| p.wblock_after.is_some()).unwrap_or(false);
         let weights: [u32; 13] = [
             if can_op { 6 } else { 0 },                                                  // 0 new op
-            8,                                                                           // 1 run one
+            if self.cfg.always_settle { 0 } else { 8 },                                  // 1 run one
             3,                                                                           // 2 settle
             if acks.is_empty() { 0 } else { self.cfg.ack_eagerness * 2 },                // 3 ack
             if pings_pending { 3 } else { 0 },                                           // 4 pingresp
@@ -483,7 +487,15 @@ impl<'a> Gen<'a> {
             if self.cfg.spurious { 3 } else { 0 },                                       // 11 spurious poll
             if self.cfg.cancels || self.cfg.drop_streams { 2 } else { 0 },               // 12 cancel / drop stream
         ];
-        match self.rng.weighted(&weights) {
+        let choice = self.rng.weighted(&weights);
+        self.do_action(choice, acks, subs_ready, wblocked);
+        if self.cfg.always_settle && choice != 2 {
+            self.settle();
+        }
+    }
+
+    fn do_action(&mut self, choice: usize, acks: Vec<(usize, AckKind)>, subs_ready: Vec<usize>, wblocked: bool) {
+        match choice {
             0 => {
                 let kind = self.rng.weighted(&self.cfg.w_ops);
                 let op = self.next_op_id();
